@@ -97,29 +97,37 @@ View  == <<mem, cur, rot, batch, flushPending, memSize, fileEnabled, enabled, an
 -----------------------------------------------------------------------------
 (* Vocabulary of entries and of search parameters.                          *)
 
-Names   == {"org", "sub", "com", "idn"}
-   \* example.org, test.example.org, example.com, xn--e1afmkfd.xn--p1ai
-Clients == {"plain", "cid", "named", "v6"}
+Names   == {"org", "sub", "com", "idn", "amp", "quo"}
+   \* example.org, test.example.org, example.com, xn--e1afmkfd.xn--p1ai,
+   \* r&d.example.org and x\"y.example.org (a label with a double quote, in
+   \* presentation format): query names are arbitrary octets on the wire, and
+   \* these two contain characters that a JSON encoder writes as escapes.
+EscapedNames == {"amp", "quo"}
+Clients == {"plain", "cid", "cid2", "named", "v6"}
    \* plain: 192.168.10.5, nothing else known
    \* cid  : 192.168.10.6 with ClientID kitchen-tv, persistent client "Kitchen TV"
+   \* cid2 : the same address 192.168.10.6 (two DoH devices behind one NAT) with
+   \*        ClientID study-pc, persistent client "Study PC"
    \* named: 10.20.30.40, persistent client "Dads-Laptop" found by address
    \* v6   : 2001:db8::17
 Reasons == {"notfound", "allow", "block", "sb", "parental", "safesearch", "service",
             "rewrite", "rewritehosts", "rewriterule"}
 
 (* Kinds of entries used by the exhaustive universe: every name, client and *)
-(* reason occurs at least once.                                             *)
+(* reason occurs at least once, and the first six (the ones the edge        *)
+(* generation uses) contain every name and every client, with the two       *)
+(* clients that share an address next to each other.                        *)
 KindTable == <<
     [name |-> "org", cli |-> "plain", reason |-> "notfound"],
     [name |-> "sub", cli |-> "cid",   reason |-> "block"],
-    [name |-> "com", cli |-> "named", reason |-> "rewrite"],
+    [name |-> "com", cli |-> "cid2",  reason |-> "rewrite"],
     [name |-> "idn", cli |-> "v6",    reason |-> "allow"],
-    [name |-> "org", cli |-> "cid",   reason |-> "service"],
-    [name |-> "sub", cli |-> "plain", reason |-> "sb"],
+    [name |-> "amp", cli |-> "cid",   reason |-> "service"],
+    [name |-> "quo", cli |-> "named", reason |-> "sb"],
     [name |-> "com", cli |-> "v6",    reason |-> "safesearch"],
     [name |-> "idn", cli |-> "named", reason |-> "rewriterule"],
-    [name |-> "org", cli |-> "named", reason |-> "parental"],
-    [name |-> "com", cli |-> "plain", reason |-> "rewritehosts"] >>
+    [name |-> "org", cli |-> "cid2",  reason |-> "parental"],
+    [name |-> "amp", cli |-> "plain", reason |-> "rewritehosts"] >>
 NKinds == Len(KindTable)
 KindOf(p, n) == ((n - 1 + p) % NKinds) + 1
 
@@ -132,15 +140,21 @@ KindOf(p, n) == ((n - 1 + p) % NKinds) + 1
 (* this table against them with its own matcher before anything else.      *)
 TermTable == [
     none        |-> [n |-> Names,                 c |-> Clients],           \* parameter absent
-    sub_example |-> [n |-> {"org", "sub", "com"}, c |-> {}],                \* example
-    sub_orgcase |-> [n |-> {"org", "sub"},        c |-> {}],                \* Example.ORG
+    sub_example |-> [n |-> {"org", "sub", "com", "amp", "quo"}, c |-> {}],  \* example
+    sub_orgcase |-> [n |-> {"org", "sub", "amp", "quo"}, c |-> {}],         \* Example.ORG
     exact_org   |-> [n |-> {"org"},               c |-> {}],                \* "example.org"
     exact_sub   |-> [n |-> {"sub"},               c |-> {}],                \* "TEST.Example.Org"
     idn_uni     |-> [n |-> {"idn"},               c |-> {}],                \* (Cyrillic) primer.rf
     idn_exact   |-> [n |-> {"idn"},               c |-> {}],                \* "(Cyrillic, upper case) PRIMER.rf"
     idn_puny    |-> [n |-> {"idn"},               c |-> {}],                \* xn--e1afmkfd
     ip_exact    |-> [n |-> {},                    c |-> {"plain"}],         \* "192.168.10.5"
-    ip_sub      |-> [n |-> {},                    c |-> {"plain", "cid"}],  \* 192.168.10.
+    amp_sub     |-> [n |-> {"amp"},               c |-> {}],                \* r&d
+    amp_exact   |-> [n |-> {"amp"},               c |-> {}],                \* "R&D.example.org"
+    quo_sub     |-> [n |-> {"quo"},               c |-> {}],                \* x\"y
+    ip_sub      |-> [n |-> {},                    c |-> {"plain", "cid", "cid2"}],  \* 192.168.10.
+    ip_shared   |-> [n |-> {},                    c |-> {"cid", "cid2"}],   \* "192.168.10.6"
+    cid2_sub    |-> [n |-> {},                    c |-> {"cid2"}],          \* study
+    cname2_exact |-> [n |-> {},                   c |-> {"cid2"}],          \* "study pc"
     ip_v6       |-> [n |-> {},                    c |-> {"v6"}],            \* 2001:db8
     cid_sub     |-> [n |-> {},                    c |-> {"cid"}],           \* kitchen
     cid_exact   |-> [n |-> {},                    c |-> {"cid"}],           \* "KITCHEN-tv"
@@ -182,6 +196,13 @@ Huge == 1000000      \* stands for the largest value the parameter type admits (
 (* limit = DefaultLimit is what the server assumes when limit is not sent   *)
 (* (the harness then omits the parameter).                                  *)
 DefaultLimit == 500
+(* scan: how many on-disk records one request examines at most before it    *)
+(* answers (searchParams.maxFileScanEntries).  The HTTP API fixes it: 50000 *)
+(* for a request without `offset', unlimited (0) with one.  The harness can *)
+(* reach the same code with a small value (it calls what the handler calls  *)
+(* and overrides the field), which is how the exhaustive universe sees scan *)
+(* windows; the thorough tier also builds a log beyond 50000 records.       *)
+DefaultScan == 50000
 Min2(a, b) == IF a < b THEN a ELSE b
 
 -----------------------------------------------------------------------------
@@ -205,12 +226,18 @@ Sel(p, s) == SelectSeq(Reverse(s), LAMBDA e : Matches(p, e) /\ OlderOK(p.older, 
 
 Cut(s, off, lim) == IF off >= Len(s) THEN <<>> ELSE SubSeq(s, off + 1, Min2(Len(s), off + lim))
 
-(* A request is well formed when the statement fixes its answer: a         *)
+(* A request is well formed when the statement says what it returns: a     *)
 (* positive limit, a non-negative offset and a cursor that is absent or    *)
 (* the timestamp of a stored entry (the only cursors the API hands out).   *)
 WellFormed(p, s) ==
     /\ p.limit >= 1 /\ p.offset >= 0
     /\ (p.older = 0 \/ \E i \in DOMAIN s : s[i].ts = p.older)
+
+(* The on-disk records a request has to go through, newest first.           *)
+DiskOlder(p, d) == SelectSeq(Reverse(d), LAMBDA e : OlderOK(p.older, e))
+(* The answer of a well-formed request is fixed completely when its scan    *)
+(* cannot end before the end of the files.                                  *)
+Unwindowed(p, d) == p.scan = 0 \/ Len(DiskOlder(p, d)) < p.scan
 
 Page(p, s)  == Cut(Sel(p, s), p.offset, p.limit)
 OkReply(pg) == [st |-> "ok", data |-> Ids(pg), oldest |-> IF pg = <<>> THEN 0 ELSE pg[Len(pg)].ts]
@@ -225,13 +252,36 @@ IsSubseq(a, b) ==    \* a is a (not necessarily contiguous) subsequence of b
             ELSE IF a[i] = b[j] THEN F[i - 1, j - 1] ELSE F[i, j - 1]
     IN F[Len(a), Len(b)]
 
-(* Admissible replies.  For a well-formed request exactly one.  For any    *)
-(* other parameter value the statement only demands that the request does  *)
-(* not crash: a 400 is fine, and so is a 200 that invents nothing (its     *)
-(* entries are selected entries older than the cursor, each at most once,  *)
-(* newest first).                                                          *)
-Admissible(p, s, r) ==
-    IF WellFormed(p, s) THEN r = Reply(p, s)
+(* A request whose scan may end early ("searchFiles does not scan more than  *)
+(* maxFileScanEntries so callers may need to call it several times") need    *)
+(* not return a full page.  What the statement requires of it is what makes  *)
+(* "paging with the returned cursor partitions the sequence without gaps or  *)
+(* duplicates" true: the page is a prefix of the selected entries older than *)
+(* the cursor; a non-empty page hands out its last entry as cursor; an empty *)
+(* page either says "end" -- only if nothing is left -- or hands out the     *)
+(* timestamp of a stored entry that is older than the request's cursor       *)
+(* (progress) and newer than every selected entry still to come (no gap).    *)
+(* How many records a window holds is not fixed here.                        *)
+AdmissibleWindow(p, s, r) ==
+    /\ r.st = "ok"
+    /\ LET U == Ids(Sel(p, s))
+           n == Len(r.data)
+       IN /\ n <= Min2(p.limit, Len(U)) /\ r.data = SubSeq(U, 1, n)
+          /\ n > 0 => r.oldest = U[n]
+          /\ n = 0 =>
+                \/ U = <<>> /\ r.oldest = 0
+                \/ /\ \E i \in DOMAIN s : s[i].ts = r.oldest
+                   /\ p.older = 0 \/ r.oldest < p.older
+                   /\ U # <<>> => r.oldest > U[1]
+
+(* Admissible replies.  For a well-formed request whose scan cannot end     *)
+(* early exactly one; with scan windows see above.  For any other parameter *)
+(* value the statement only demands that the request does not crash: a 400  *)
+(* is fine, and so is a 200 that invents nothing (its entries are selected  *)
+(* entries older than the cursor, each at most once, newest first).         *)
+Admissible(p, s, d, r) ==
+    IF WellFormed(p, s)
+    THEN IF Unwindowed(p, d) THEN r = Reply(p, s) ELSE AdmissibleWindow(p, s, r)
     ELSE \/ r.st = "bad_request"
          \/ r.st = "ok" /\ IsSubseq(r.data, Ids(Sel(p, s)))
 
@@ -241,6 +291,39 @@ Admissible(p, s, r) ==
 Disk == rot \o cur
 SkipSigApplies(p) == Disk # <<>> /\ p.older > Disk[Len(Disk)].ts
 SkipSigReply(p)   == Reply(p, SubSeq(Disk, 1, Len(Disk) - 1) \o mem)
+
+(* Signature of known finding C07:term-search-misses-json-escaped-host-on-disk. *)
+(* On disk the quick pre-match reads the name from the raw JSON text of the *)
+(* line up to the next double quote: "r&d.example.org" is stored there as   *)
+(* r\u0026d.example.org, and x\"y.example.org is cut off after x\\\.  Terms  *)
+(* that need the escaped part of the name therefore do not select the entry *)
+(* once it is on disk, unless they select it through its client.            *)
+(* RawMissNames(t): the names term t selects in memory but not from that    *)
+(* raw text (the harness checks this table against its strings as well).    *)
+(* The signature is the reply computed without the on-disk entries missed   *)
+(* in this way.  Used only to classify.                                     *)
+RawMissNames(t) ==
+    IF t = "none" THEN {}
+    ELSE (TermTable[t].n \cap {"quo"}) \cup (IF t \in {"amp_sub", "amp_exact"} THEN {"amp"} ELSE {})
+EscMissed(p, e)  == e.name \in RawMissNames(p.term) /\ e.cli \notin TermTable[p.term].c
+EscSigApplies(p) == \E i \in DOMAIN Disk : EscMissed(p, Disk[i])
+EscLog(p)        == SelectSeq(Disk, LAMBDA e : ~EscMissed(p, e)) \o mem
+EscSigReply(p)   == Reply(p, EscLog(p))
+
+(* The scan as the code performs it (a model of the mechanism, used by TLC  *)
+(* to check that scan windows and the statement fit together, and as the    *)
+(* spec's own Search transition): all matching ring entries, then the       *)
+(* matching ones among the first p.scan on-disk records older than the      *)
+(* cursor; the cursor of an empty page is the last record examined, unless  *)
+(* the files ended.                                                         *)
+MechReply(p) ==
+    LET dk   == DiskOlder(p, Disk)
+        w    == SubSeq(dk, 1, Min2(Len(dk), p.scan))
+        all  == Sel(p, mem) \o SelectSeq(w, LAMBDA e : Matches(p, e))
+        data == Cut(all, 0, p.limit)
+    IN [st |-> "ok", data |-> Ids(data),
+        oldest |-> IF data # <<>> THEN data[Len(data)].ts
+                   ELSE IF Len(dk) >= p.scan THEN w[Len(w)].ts ELSE 0]
 
 -----------------------------------------------------------------------------
 (* Actions.                                                                 *)
@@ -257,7 +340,8 @@ Init ==
     /\ lastReply = [st |-> "none"]
     \* Direction A: hand the vocabulary tables to the harness, which binds
     \* them to its concrete strings before it runs anything.
-    /\ EmitEdges => PrintT(<<"@@V", ToJson([k |-> "t", kinds |-> KindTable, terms |-> TermTable])>>)
+    /\ EmitEdges => PrintT(<<"@@V", ToJson([k |-> "t", kinds |-> KindTable, terms |-> TermTable,
+                                              rawmiss |-> [t \in Terms |-> RawMissNames(t)]])>>)
 
 (* Push e into the ring: the oldest element is overwritten when it is full. *)
 Pushed(e) == IF Len(mem) < Cap THEN Append(mem, e) ELSE Append(Tail(mem), e)
@@ -278,6 +362,17 @@ RecordE(name, cli, reason) ==
                        \* No file: the ring is the whole log and evicts by design.
                        ELSE Append(SelectSeq(recorded, LAMBDA x : x.ts # mem[1].ts), e)
     /\ UNCHANGED <<cur, rot, batch, memSize, fileEnabled, enabled, anon, pal, lastReply>>
+
+(* n Adds of the same kind in a row that do not fill the ring (so none of   *)
+(* them requests a flush): shorthand for the trace spec, which would        *)
+(* otherwise need 50 000 lines to grow a log beyond the scan limit.         *)
+RecordMany(n, name, cli, reason) ==
+    /\ enabled /\ fileEnabled /\ ~flushPending /\ n >= 1
+    /\ Len(mem) + n < memSize /\ clock + n <= MaxRec
+    /\ LET new == [i \in 1..n |-> [ts |-> 2 * (clock + i), name |-> name, cli |-> cli, reason |-> reason]]
+       IN mem' = mem \o new /\ recorded' = recorded \o new
+    /\ clock' = clock + n
+    /\ UNCHANGED <<cur, rot, batch, flushPending, memSize, fileEnabled, enabled, anon, pal, inScope, lastReply>>
 
 KindChoices == IF Palettes = {} THEN Kinds ELSE {KindOf(pal, clock + 1)}
 
@@ -349,7 +444,8 @@ Restart(m) ==
 (* Search never changes the log.  A reply is any admissible one; for a      *)
 (* well-formed request that is a single value.                              *)
 SearchP(p) ==
-    /\ lastReply' = IF WellFormed(p, Log) THEN Reply(p, Log)
+    /\ lastReply' = IF WellFormed(p, Log)
+                    THEN IF Unwindowed(p, Disk) THEN Reply(p, Log) ELSE MechReply(p)
                     ELSE [st |-> "ok", data |-> Ids(Sel(p, Log)), oldest |-> 0]
     /\ UNCHANGED View
 
@@ -362,7 +458,10 @@ Cursors == (-3 .. 2 * clock + 3)       \* every stored ts +- 1, absent, out of r
 PageSizes == {1, 2, 3}
 
 P(older, limit, offset, term, status) ==
-    [older |-> older, limit |-> limit, offset |-> offset, term |-> term, status |-> status]
+    [older |-> older, limit |-> limit, offset |-> offset, term |-> term, status |-> status,
+     scan |-> IF offset = 0 THEN DefaultScan ELSE 0]
+PS(older, limit, term, status, scan) ==
+    [older |-> older, limit |-> limit, offset |-> 0, term |-> term, status |-> status, scan |-> scan]
 Plain(older, limit, offset) == P(older, limit, offset, "none", "none")
 
 (* The requests TLC tries as Search actions in every state (a transition    *)
@@ -370,6 +469,7 @@ Plain(older, limit, offset) == P(older, limit, offset, "none", "none")
 SearchParams ==
     {Plain(c, 2, 0) : c \in {0, 1, 2 * clock - 1, 2 * clock, 2 * clock + 1}}
     \cup {Plain(0, l, o) : l \in {-1, 0, 2, Huge}, o \in {-1, 0, 1}}
+    \cup {PS(c, 1, "sub_example", "none", 1) : c \in {0, 2 * clock}}
 
 -----------------------------------------------------------------------------
 (* Edge and observation emission for direction A.                           *)
@@ -384,15 +484,34 @@ Edge(act, args) ==
     EmitEdges => PrintT(<<"@@V", ToJson([k |-> "e", src |-> Here, act |-> act, args |-> args, dst |-> There])>>)
 
 (* One query of the observation table: the request, whether its answer is   *)
-(* fixed ("exact") or only bounded ("sub": 400, or 200 with a subsequence   *)
-(* of `data'), and the defect signature where it applies.  Written as a     *)
-(* tuple <<older, limit, offset, term, status, class, data, oldest, sig>>   *)
-(* to keep TLC's output small.                                              *)
+(* fixed ("exact"), bounded by the window rule ("window": `data' is the     *)
+(* sequence of selected entries older than the cursor, see                  *)
+(* AdmissibleWindow) or only bounded ("sub": 400, or 200 with a subsequence *)
+(* of `data'), and the defect signatures that apply, each <<name, data,     *)
+(* oldest>>.  Written as a tuple <<older, limit, offset, term, status,      *)
+(* class, data, oldest, sigs, scan>> to keep TLC's output small.            *)
+Sigs(p) ==
+    (IF SkipSigApplies(p) THEN << <<"skip", SkipSigReply(p).data, SkipSigReply(p).oldest>> >> ELSE <<>>)
+    \o (IF EscSigApplies(p) THEN << <<"esc", EscSigReply(p).data, EscSigReply(p).oldest>> >> ELSE <<>>)
 Q(p) ==
     IF WellFormed(p, Log)
-    THEN <<p.older, p.limit, p.offset, p.term, p.status, "exact", Reply(p, Log).data, Reply(p, Log).oldest,
-           IF SkipSigApplies(p) THEN <<SkipSigReply(p).data, SkipSigReply(p).oldest>> ELSE <<>> >>
-    ELSE <<p.older, p.limit, p.offset, p.term, p.status, "sub", Ids(Sel(p, Log)), 0, <<>> >>
+    THEN IF Unwindowed(p, Disk)
+         THEN <<p.older, p.limit, p.offset, p.term, p.status, "exact", Reply(p, Log).data, Reply(p, Log).oldest,
+                Sigs(p), p.scan>>
+         ELSE <<p.older, p.limit, p.offset, p.term, p.status, "window", Ids(Sel(p, Log)), 0,
+                IF EscSigApplies(p)
+                THEN << <<"esc", Ids(Sel(p, EscLog(p))), 0>> >>
+                ELSE <<>>, p.scan>>
+    ELSE <<p.older, p.limit, p.offset, p.term, p.status, "sub", Ids(Sel(p, Log)), 0, <<>>, p.scan>>
+
+(* Row for a chain of scan windows: always the selected sequence, judged by  *)
+(* the window rule at every cursor the real code hands out (the rule also   *)
+(* admits the fixed reply of a request whose scan does not end early).      *)
+QW(p) ==
+    <<p.older, p.limit, p.offset, p.term, p.status, "window", Ids(Sel(p, Log)), 0,
+      IF EscSigApplies(p)
+      THEN << <<"esc", Ids(Sel(p, EscLog(p))), 0>> >>
+      ELSE <<>>, p.scan>>
 
 (* Cursor chain: pages of size l following reply.oldest until an empty page *)
 (* (which is part of the chain: the client only stops when it sees it).     *)
@@ -421,6 +540,16 @@ PagedFilters == {<<"none", "none">>, <<"sub_example", "none">>, <<"none", "filte
 ReplayedPagings ==
     {<<l, <<"none", "none">> >> : l \in PageSizes}
     \cup {<<2, <<"sub_example", "none">> >>, <<1, <<"none", "filtered">> >>, <<3, <<"ip_sub", "processed">> >>}
+(* Scan windows: <<scan, page size, filter>>.  The harness follows the       *)
+(* cursors the real code hands out from `older_than absent' until the end   *)
+(* and judges every reply by the window rule; the row gives it the selected *)
+(* sequence.                                                                *)
+(* The smallest scan limit replayed is 2: the code counts the record the     *)
+(* cursor points at (when it is on disk) as examined, so a limit of 1 can   *)
+(* be used up by it -- an artefact of the scaling, the real limit is 50000. *)
+ReplayedWindows ==
+    {<<2, 2, <<"none", "none">> >>, <<2, 1, <<"sub_example", "none">> >>, <<2, 1, <<"nomatch", "none">> >>,
+     <<3, 1, <<"none", "filtered">> >>, <<3, 3, <<"ip_sub", "processed">> >>, <<2, 2, <<"cname2_exact", "none">> >>}
 OddPairs ==
     {<<l, 0>> : l \in Limits \ PageSizes} \cup {<<2, o>> : o \in Offsets \ {0}}
     \cup {<<-1, -1>>, <<Huge, 1>>, <<Huge, Huge>>, <<-5, 4>>, <<0, 1>>, <<1, Huge>>, <<3, -3>>}
@@ -432,7 +561,8 @@ Observation ==
       offs   |-> FlatSeq(SetToSeq({OffChain(0, x[1], x[2][1], x[2][2]) : x \in ReplayedPagings})),
       curs   |-> SetToSeq({Q(Plain(c, 2, 0)) : c \in Cursors \ {0}})
                  \o SetToSeq({Q(P(c, 1, 1, "sub_example", "none")) : c \in {x \in Cursors : x % 2 # 0}}),
-      odd    |-> SetToSeq({Q(Plain(0, x[1], x[2])) : x \in OddPairs}) ]
+      odd    |-> SetToSeq({Q(Plain(0, x[1], x[2])) : x \in OddPairs}),
+      win    |-> SetToSeq({QW(PS(0, x[2], x[3][1], x[3][2], x[1])) : x \in ReplayedWindows}) ]
 
 Observe ==
     /\ EmitEdges /\ batch = <<>> /\ ~flushPending
@@ -527,6 +657,25 @@ PagingPartitions ==
         /\ CursorPages(0, l, f[1], f[2]) = Ids(Oracle(f[1], f[2]))
         /\ OffsetPages(0, l, f[1], f[2]) = Ids(Oracle(f[1], f[2]))
 
+(* WindowPaging: with scan windows of every small size, following the       *)
+(* cursors of the mechanism until it says "end" still yields exactly the    *)
+(* selected entries, and every reply on the way obeys the window rule (so   *)
+(* the rule and the statement's paging clause fit together).                *)
+RECURSIVE WindowPages(_, _, _, _, _)
+WindowPages(c, l, t, s, k) ==
+    LET r == MechReply(PS(c, l, t, s, k))
+    IN IF r.oldest = 0 THEN r.data ELSE r.data \o WindowPages(r.oldest, l, t, s, k)
+RECURSIVE WindowChainOK(_, _, _, _, _)
+WindowChainOK(c, l, t, s, k) ==
+    LET p == PS(c, l, t, s, k)
+        r == MechReply(p)
+    IN /\ Admissible(p, Log, Disk, r)
+       /\ r.oldest # 0 => WindowChainOK(r.oldest, l, t, s, k)
+WindowPaging ==
+    InForce => \A f \in PagedFilters \cup {<<"nomatch", "none">>}, l \in PageSizes, k \in {1, 2, 3} :
+        /\ WindowPages(0, l, f[1], f[2], k) = Ids(Oracle(f[1], f[2]))
+        /\ WindowChainOK(0, l, f[1], f[2], k)
+
 (* NoParameterCrashes: Search is total -- for every parameter combination   *)
 (* there is an admissible reply (the spec's own reply is one), and what a   *)
 (* 200 returns never invents, repeats or reorders entries.                  *)
@@ -535,8 +684,8 @@ NoParameterCrashes ==
                        \cup {Plain(c, l, o) : c \in Cursors, l \in {-1, 2, Huge}, o \in {0, 1}} :
         LET r == IF WellFormed(p, Log) THEN Reply(p, Log)
                  ELSE [st |-> "ok", data |-> Ids(Sel(p, Log)), oldest |-> 0]
-        IN /\ Admissible(p, Log, r)
-           /\ Admissible(p, Log, [st |-> "bad_request"]) = ~WellFormed(p, Log)
+        IN /\ Admissible(p, Log, Disk, r)
+           /\ Admissible(p, Log, Disk, [st |-> "bad_request"]) = ~WellFormed(p, Log)
            /\ IsSubseq(r.data, Ids(Reverse(Log)))
 
 (* What the last Search transition answered is admissible.                  *)
